@@ -30,7 +30,7 @@ FILTERS = ["path_length", "start_end_distance", "cut_percentile_shortest", "trun
            "remove_duplicates", "custom_maze_filter", "collect_generation_meta"]
 THRESHOLDS = {"quick": {**{f"c08:filter:{f}": 100 for f in FILTERS}, "c08:empty-result": 20, "c08:all-kept": 20, "c08:proper-subset": 300,
                         "c08:boundary:all-equal-lengths": 20, "c08:boundary:near-dup-at-thr": 20, "c08:boundary:near-dup-at-thr+1": 20,
-                        "c08:boundary:dup-first-last": 20, "c08:boundary:dup-adjacent": 20, "c08:boundary:dup-other-dtype": 20, "c08:sequences": 100,
+                        "c08:boundary:dup-first-last": 20, "c08:boundary:dup-adjacent": 20, "c08:boundary:dup-other-dtype": 20, "c08:sequences": 100, "c08:generated-big": 12, "c08:from_config-big": 10,
                         "c08:from_config": 40, "c08:input-unchanged-checked": 1000, "c08:provenance-checked": 1000}}
 THRESHOLDS["thorough"] = dict(THRESHOLDS["quick"])
 ANCHORS = ["maze_dataset.dataset.maze_dataset:register_maze_filter", "maze_dataset.dataset.dataset:register_dataset_filter",
@@ -226,11 +226,28 @@ def draw_filter(rng, data, thr_hint=None):
     return name, [], dict(minimum_difference_connection_list=t_cl, minimum_difference_solution=t_sol)
 
 
+def _meta_digest(m):
+    gm = getattr(m, "generation_meta", None)
+    if gm is None:
+        return None
+    out = []
+    for k in sorted(gm, key=str):
+        v = gm[k]
+        if isinstance(v, set):
+            v = sorted(map(tuple, v)) if v and not isinstance(next(iter(v)), (int, float, str)) else sorted(v)
+        elif isinstance(v, np.ndarray):
+            v = v.tolist()
+        out.append((str(k), repr(v)[:300]))
+    return tuple(out)
+
+
 def apply_and_check(ctx, ds, name, args, kwargs, case, tags):
     """apply one filter to ds, check everything, return the result dataset (or None)"""
     data = snapshot_data(ds)
     ids_before = [id(m) for m in ds.mazes]
     cfg_before = cfg_fields(ds.cfg)
+    meta_before = [_meta_digest(m) for m in ds.mazes]
+    collected_before = ds.generation_metadata_collected is None
     mech = f"C08/{name}"
     c2 = dict(case, filter=name, args=args, kwargs=kwargs)
     try:
@@ -260,6 +277,9 @@ def apply_and_check(ctx, ds, name, args, kwargs, case, tags):
     ctx.check([id(m) for m in ds.mazes] == ids_before and len(ds) == len(data), f"{mech}/input-maze-list-changed", f"len {len(ds)} vs {len(data)}", c2)
     ok = all(np.array_equal(m.connection_list, d["cl"]) and np.array_equal(m.solution, d["sol"]) for m, d in zip(ds.mazes, data))
     ctx.check(ok, f"{mech}/input-maze-content-changed", "", c2)
+    ctx.check([_meta_digest(m) for m in ds.mazes] == meta_before and (ds.generation_metadata_collected is None) == collected_before,
+              f"{mech}/input-generation-metadata-changed", lambda: f"per-maze generation_meta present before: {sum(d is not None for d in meta_before)}, "
+              f"after: {sum(_meta_digest(m) is not None for m in ds.mazes)}; collected metadata appeared: {collected_before and ds.generation_metadata_collected is not None}", c2)
     ctx.check(cfg_fields(ds.cfg) == cfg_before, f"{mech}/input-config-changed", lambda: f"before {cfg_before} after {cfg_fields(ds.cfg)}"[:600], c2)
     # provenance
     ctx.tally("c08:provenance-checked")
@@ -343,6 +363,50 @@ def run(ctx):
             ctx.sample(dict(case=case, sequence=[(s[0], s[1], s[2]) for s in seq], lengths=[len(p) for _c, p in items], result_len=len(cur)))
     _metadata(ctx, 64 if ctx.quick else 600)
     _from_config(ctx, 48 if ctx.quick else 600)
+    _generated_big(ctx, 16 if ctx.quick else 160)
+
+
+def _generated_big(ctx, n):
+    """freshly generated datasets (every maze still carries its generation_meta) of 100..140 mazes - the size from which the
+    library switches to its compact serialization - put through filters and filter sequences; hand application vs from_config"""
+    from maze_dataset import MazeDataset
+
+    for j in range(n):
+        if not ctx.mine(j):
+            continue
+        rng = ctx.sub_rng("genbig", j)
+        spec = dict(key=f"gb{j}", name=f"c08gb-{j}", gen=["gen_dfs", "gen_dfs_percolation", "gen_dfs"][j % 3], kwargs=[{}, dict(p=0.3), dict(do_forks=False)][j % 3],
+                    grid_n=int(rng.integers(3, 6)), n_mazes=int([100, 101, 120, 140][j % 4]), seed=int(rng.integers(1 << 30)), filters=[])
+        case = dict(key=spec["key"], mode="generated-big", spec=spec)
+        with warnings.catch_warnings():
+            warnings.simplefilter("ignore")
+            try:
+                ds = MazeDataset.generate(c04_child.make_cfg(spec))
+            except ValueError:
+                continue
+        ctx.tally("c08:generated-big")
+        cur = ds
+        seq = []
+        for step in range(3):
+            data = snapshot_data(cur)
+            lens = sorted({len(d["sol"]) for d in data}) or [1]
+            name, args, kwargs = [("path_length", [int(lens[len(lens) // 4])], {}), ("truncate_count", [], dict(max_count=max(100, len(cur) - 3))),
+                                  ("start_end_distance", [1], {}), ("remove_duplicates_fast", [], {}),
+                                  ("cut_percentile_shortest", [5.0], {})][int(rng.integers(5))]
+            if len(cur) == 0:
+                break
+            nxt = apply_and_check(ctx, cur, name, args, kwargs, dict(case, sequence=[x[0] for x in seq] + [name]), set())
+            seq.append((name, args, kwargs))
+            if nxt is None:
+                break
+            cur = nxt
+        # the same filters listed in a configuration
+        spec2 = dict(spec, filters=[dict(name=nm, args=a, kwargs=k) for nm, a, k in seq])
+        with ctx.guard("C08/from_config", dict(case, filters=spec2["filters"])), warnings.catch_warnings():
+            warnings.simplefilter("ignore")
+            got = MazeDataset.from_config(c04_child.make_cfg(spec2), load_local=False, save_local=False, do_download=False)
+            ctx.ev(); ctx.tally("c08:from_config-big")
+            same_mazes(ctx, got.mazes, snapshot_data(cur), list(range(len(cur))), "C08/from_config", dict(case, filters=spec2["filters"]))
 
 
 def _ref_collect(mazes_meta, lattice_dim=2):
